@@ -134,7 +134,9 @@ func dischargeHedged(o *Obligation, timeoutS int) {
 	o.Verdict = "unknown"
 	o.Output = strings.Join(outs, "\n")
 	if o.Raw == "" {
-		v, out, t := runSolver(solvers[0], dropQuantified(withModel), 10)
+		// model search: the default configuration (relevancy filtering on) finds models
+		// far more often than the proof-oriented primary configuration
+		v, out, t := runSolver(solvers[1], dropQuantified(withModel), 20)
 		o.Time += t
 		if v == "sat" {
 			o.Model = out
